@@ -262,6 +262,17 @@ Section C17.
     let names := names_of cfg (length (vals_of s)) a in
     nth p tr' (empty_trace num) = mkTrace names [LEnd] [snap num zero (vals_of s') t names].
   Proof. exact (fun H1 H2 H3 => trace_reset_keeps_last_only num sub absf ltb isfin zero cfg a ev before after H1 H2 H3 d o t s tr p s' tr'). Qed.
+  (* ... on EVERY path (exceptions included) reset=True leaves exactly ONE snapshot in the period's Trace — the last one
+     the run took — under the names of this call, whatever the Trace held before (no width guard needed) *)
+  Theorem C17_trace_reset_every_path cfg a d o t s (tr : traces num) p :
+    shape_pres num ev -> shape_pres num before -> shape_pres num after ->
+    truthy a = true ->
+    names_valid num (vals_of s) t (names_of cfg (length (vals_of s)) a) ->
+    py_pos (length tr) t = Some p -> length tr = length (status s) ->
+    let R := traced_solve_t cfg a true ev before after d o t s tr in
+    exists lab res, nth p (snd (fst R)) (empty_trace num) = mkTrace (names_of cfg (length (vals_of s)) a) [lab] [res].
+  Proof. exact (fun H1 H2 H3 => trace_reset_every_path num sub absf ltb isfin zero cfg a ev before after H1 H2 H3 d o t s tr p). Qed.
+
   (* REPEATED SOLVES (default reset=False) of a period traced before with as many names: nothing the Trace held is lost
      and the run's labels start, before, 0, 1..k [, end] and snapshots are appended in order.  The Trace's `names`
      stay those of the call that created it (see C17_trace_stale_names_refuted below). *)
@@ -406,6 +417,7 @@ Print Assumptions C17_trace_noninterference_run_periods.
 Print Assumptions C17_solve_moves_only_visited_traces.
 Print Assumptions C17_trace_of_period_within_solve.
 Print Assumptions C17_traced_solve_no_targets.
+Print Assumptions C17_trace_reset_every_path.
 Print Assumptions C17_trace_accumulates.
 Print Assumptions C17_trace_names_after_run.
 Print Assumptions C17_solve_trace_shape_solved.
